@@ -45,6 +45,8 @@ where
 
     #[inline]
     fn real_stored_len(&self) -> usize {
+        #[cfg(anydb_verif)]
+        rawdb::verif::lock_rw("pages", rawdb::verif::LockMode::Read, &self.pages);
         self.pages.read().stored_len(Self::PER_PAGE)
     }
 
@@ -55,6 +57,8 @@ where
         let pushed_len = self.base.pushed().len();
 
         let (truncate_at, starting_page_index, partial_page) = {
+            #[cfg(anydb_verif)]
+            rawdb::verif::lock_rw("pages", rawdb::verif::LockMode::Read, &self.pages);
             let pages = self.pages.read();
 
             let real_stored_len = pages.stored_len(Self::PER_PAGE);
@@ -110,6 +114,8 @@ where
             let append_at = page.end() as usize;
             self.region().truncate_write(append_at, &raw)?;
 
+            #[cfg(anydb_verif)]
+            rawdb::verif::lock_rw("pages", rawdb::verif::LockMode::Write, &self.pages);
             let mut pages = self.pages.write();
             pages.truncate(starting_page_index);
             pages.checked_push(
@@ -163,6 +169,8 @@ where
         // Write the region before re-taking the pages lock to avoid deadlock.
         self.region().truncate_write(truncate_at as usize, &buf)?;
 
+        #[cfg(anydb_verif)]
+        rawdb::verif::lock_rw("pages", rawdb::verif::LockMode::Write, &self.pages);
         let mut pages = self.pages.write();
         pages.truncate(starting_page_index);
 
